@@ -343,12 +343,97 @@ def run(thorough, seed):
                     samples.append(trace)
             finally:
                 pr.kill()
+        # ---- (A) all configured listen addresses or none: one of two addresses cannot be bound (this leg holds the port).  The
+        # unchanged server refuses to start; a server that RUNS and answers on the other address serves a strict subset of
+        # what the operator configured
+        class _P:  # what viol() prints
+            def __init__(self, c): self.cmdline = c
+        def env0():
+            e = {k: v for k, v in os.environ.items() if k not in ("LISTEN", "DATA_DIR", "CLIENT_ID", "SNAPSHOT_VERSIONS", "SNAPSHOT_DAYS")}
+            e["RUST_LOG"] = "error"
+            return e
+        for taken_first in ([False, True] if thorough else [False]):
+            blocker = socket.socket(socket.AF_INET, socket.SOCK_STREAM)
+            blocker.bind(("127.0.0.1", 0))
+            blocker.listen(1)
+            p_taken = blocker.getsockname()[1]
+            p_free = free_port("127.0.0.1")
+            addrs = ["127.0.0.1:%d" % p_taken, "127.0.0.1:%d" % p_free] if taken_first else ["127.0.0.1:%d" % p_free, "127.0.0.1:%d" % p_taken]
+            dd = os.path.join(base, "subset%d" % int(taken_first))
+            os.makedirs(dd)
+            args = [BIN, "--data-dir", dd] + sum([["--listen", a] for a in addrs], [])
+            cl = " ".join(args[1:]) + "   (port %d is held by another process)" % p_taken
+            n_cfg += 1
+            cases += 1
+            sp = subprocess.Popen(args, env=env0(), stdout=subprocess.DEVNULL, stderr=subprocess.DEVNULL)
+            try:
+                t0 = time.time()
+                answered = None
+                while time.time() - t0 < 4 and sp.poll() is None:
+                    try:
+                        st, _, _ = req(("127.0.0.1", p_free), "GET", "/v1/client/get-child-version/" + NIL, str(uuid.UUID(int=rnd.getrandbits(128), version=4)))
+                        requests[0] += 1
+                        answered = st
+                        break
+                    except OSError:
+                        time.sleep(0.1)
+                if answered is not None and sp.poll() is None:
+                    viol("two listen addresses configured, one of them cannot be bound (held by another process): the server RUNS and answers on %s only (status %d) instead of refusing to start - it serves a strict subset of the configured addresses" % ("127.0.0.1:%d" % p_free, answered), _P(cl), ["start: " + cl])
+            finally:
+                if sp.poll() is None:
+                    sp.send_signal(signal.SIGKILL)
+                    sp.wait()
+                blocker.close()
+        # ---- (B) a data directory whose name is not valid UTF-8 (legal on this platform), by flag and by environment variable:
+        # the database must be in exactly that directory
+        for how_b in (["flag", "env"] if thorough else ["flag" if seed % 2 else "env"]):
+            bdir = os.path.join(os.fsencode(base), b"dat\xe9-" + how_b.encode())
+            os.makedirs(bdir)
+            pb = free_port("127.0.0.1")
+            argsb = [os.fsencode(BIN), b"--listen", b"127.0.0.1:%d" % pb]
+            envb = {os.fsencode(k): os.fsencode(v) for k, v in env0().items()}
+            if how_b == "flag":
+                argsb += [b"--data-dir", bdir]
+            else:
+                envb[b"DATA_DIR"] = bdir
+            clb = "%s data directory %r, --listen 127.0.0.1:%d" % (how_b, bdir, pb)
+            n_cfg += 1
+            cases += 1
+            sp = subprocess.Popen(argsb, env=envb, stdout=subprocess.DEVNULL, stderr=subprocess.PIPE)
+            try:
+                t0 = time.time()
+                up = False
+                while time.time() - t0 < 15 and sp.poll() is None:
+                    try:
+                        st, hd, _ = add_version(("127.0.0.1", pb), str(uuid.UUID(int=rnd.getrandbits(128), version=4)), NIL, b"in-a-non-utf8-directory")
+                        requests[0] += 1
+                        up = True
+                        break
+                    except OSError:
+                        time.sleep(0.05)
+                if not up:
+                    # refusing such a directory outright is not what the unchanged server does, but it is not silently using ANOTHER one either
+                    msg = sp.stderr.read().decode(errors="replace")[-300:] if sp.poll() is not None else "no answer within 15 s"
+                    viol("the server does not serve with a data directory whose name is not valid UTF-8: " + msg, _P(clb), ["start: " + clb])
+                else:
+                    found = [f for f in os.listdir(bdir) if f.endswith(b".sqlite3")]
+                    if st != 200 or not found:
+                        sibl = [f for f in os.listdir(os.fsencode(base)) if f.startswith(b"dat")]
+                        viol("AddVersion answered %d and the configured data directory %r holds %r: the data is kept somewhere else (siblings now: %r)" % (st, bdir, os.listdir(bdir), sibl), _P(clb), ["start: " + clb])
+            finally:
+                if sp.poll() is None:
+                    sp.send_signal(signal.SIGKILL)
+                    sp.wait()
+                try:
+                    sp.stderr.close()
+                except Exception:
+                    pass
         if len(offsets_l) > 1:
             viol("the count at which the first snapshot request appears is not the same function of the configured target for every configuration (offsets %s)" % sorted(offsets_l), None)
     finally:
         shutil.rmtree(base, ignore_errors=True)
     return {"leg": "process", "cases": cases, "configurations": n_cfg, "requests": requests[0], "violations": violations, "samples": samples,
-            "bound": "%d configurations of the real executable (1-3 listen addresses on 127.0.0.1 / localhost / ::1, one configuration with 0.0.0.0 and ::1 on the same port; allow-list none/one/many; snapshot-versions in %s; snapshot-days in %s; each given by flag, by environment variable, or mixed), each with a kill -9 and 6 restarts on the same data directory" % (n_cfg, vers_values, days_values)}
+            "bound": "%d configurations of the real executable (1-3 listen addresses on 127.0.0.1 / localhost / ::1, one configuration with 0.0.0.0 and ::1 on the same port; allow-list none/one/many; snapshot-versions in %s; snapshot-days in %s; each given by flag, by environment variable, or mixed), each with a kill -9 and 6 restarts on the same data directory; plus: two listen addresses of which one is held by another process (all or nothing), and a data directory whose name is not valid UTF-8 (by flag / by environment variable)" % (n_cfg, vers_values, days_values)}
 
 
 if __name__ == "__main__":
